@@ -82,13 +82,20 @@ impl List {
         empty: bool,
         compact: bool,
     ) -> Result<Self, Error> {
-        // Compute array size
-        let array_size = if compact { coupon_count } else { 1 << lg_arr };
+        // The container always has 1 << lg_arr slots; a compact image stores only the
+        // coupon_count occupied ones, which go to the front.
+        let array_size = 1usize << lg_arr;
+        let stored = if compact { coupon_count } else { array_size };
+        if stored > array_size {
+            return Err(Error::deserial(format!(
+                "coupon count {coupon_count} exceeds list capacity {array_size}"
+            )));
+        }
 
         // Read coupons
         let mut coupons = vec![0u32; array_size];
         if !empty && coupon_count > 0 {
-            for (i, coupon) in coupons.iter_mut().enumerate() {
+            for (i, coupon) in coupons.iter_mut().take(stored).enumerate() {
                 *coupon = cursor.read_u32_le().map_err(|_| {
                     Error::insufficient_data(format!(
                         "expect {coupon_count} coupons, failed at index {i}"
